@@ -12,7 +12,9 @@
      split_one_child                                              (prefers a non-volatile child; the setters freeze both parts),
      unroll / unroll_children / split_one_child                   (VolatileModificationWarning),
      encapsulate (the inner node keeps the definition), cleanup, flatten_and_balance (built from the above).
-   make_compatible / roll_constant_waveforms on volatile programs are not modelled (specification only). *)
+   make_compatible / roll_constant_waveforms on volatile programs are modelled at the end of this file
+   ([vis_compatible_w], [vmake_compatible_rec_w], [vmake_compatible_w] with the VolatileModificationWarning flag,
+   [vroll_constant_waveforms]). *)
 From Coq Require Import ZArith QArith List Bool.
 Require Import QV.C06.Model.
 Import ListNotations.
@@ -242,3 +244,126 @@ Definition vflatten_and_balance_w (fuel : nat) (d : Z) (t : vtree) : result (vtr
 (* postcondition of cleanup('merge_single_child') with volatile counts: nothing below is mergeable in the code's sense *)
 Fixpoint v_none_mergeable (t : vtree) : bool :=
   match t with VNode r w m ch => negb (vmergeable (VNode r w m ch)) && forallb v_none_mergeable ch end.
+
+(* ------------------------------------------------------------------------------------------------------------------ *)
+(* _is_compatible / _make_compatible / make_compatible / roll_constant_waveforms with volatile counts.
+   The second component of the results is "a VolatileModificationWarning was emitted during the call". *)
+
+(* _is_compatible: the level depends on the current values only ([Proofs_vol_mc.vis_compatible_level]); the three early
+   returns and the ZeroDivisionError happen before any child is visited; `all(...)` stops at the first child that is
+   not compatible *)
+Fixpoint vis_compatible_w (min_len quantum : Z) (sr : Q) (t : vtree) : result (comp_level * bool) :=
+  let dur_samples := (duration (erase t) * sr)%Q in
+  if negb (q_is_int dur_samples) then Ok (IncompFraction, false)
+  else if Qle_bool (inject_Z min_len) dur_samples then
+    if quantum =? 0 then Err EZeroDiv
+    else if 0 <? (q_int dur_samples) mod quantum then Ok (IncompQuantum, false)
+    else
+      match t with
+      | VNode r _ _ [] =>
+          let wd := (body_duration (erase t) * sr)%Q in
+          if negb (Qle_bool (inject_Z min_len) wd) || negb (q_is_int (wd / inject_Z quantum))
+          then Ok (ActionRequired, is_vol r)
+          else Ok (Compatible, false)
+      | VNode r _ _ ch =>
+          (fix go (l : list vtree) : result (comp_level * bool) :=
+             match l with
+             | [] => Ok (Compatible, false)
+             | c :: rest =>
+                 bind (vis_compatible_w min_len quantum sr c)
+                      (fun lw => if comp_level_eqb (fst lw) Compatible
+                                 then bind (go rest) (fun r' => Ok (fst r', snd lw || snd r'))
+                                 else Ok (ActionRequired, snd lw || is_vol r))
+             end) ch
+      end
+  else Ok (IncompTooShort, false).
+
+(* comp_levels = [_is_compatible(sub_program, ...) for sub_program in program] *)
+Fixpoint vmc_levels (min_len quantum : Z) (sr : Q) (l : list vtree) : result (list (comp_level * bool)) :=
+  match l with
+  | [] => Ok []
+  | c :: rest => bind (vis_compatible_w min_len quantum sr c)
+                      (fun lw => bind (vmc_levels min_len quantum sr rest) (fun ls => Ok (lw :: ls)))
+  end.
+
+(* _make_compatible.  Leaf: `program.repetition_count = 1` stores an int (volatility dropped).  Merge of all children:
+   in the "keep" case the node keeps its repetition DEFINITION (a volatile count stays volatile), otherwise the count
+   is unrolled into the waveform and becomes the int 1. *)
+Fixpoint vmake_compatible_rec_w (min_len quantum : Z) (sr : Q) (t : vtree) : result (vtree * bool) :=
+  match t with
+  | VNode r w m [] => bind (to_waveform (erase t)) (fun x => Ok (VNode (Fixed 1) (Some x) m [], false))
+  | VNode r w m ch =>
+      bind (vmc_levels min_len quantum sr ch)
+           (fun lws =>
+              let wl := existsb snd lws in
+              if existsb (fun lw => is_incompatible (fst lw)) lws then
+                if rv r =? 0 then Err EZeroDiv
+                else
+                  let single_run := (duration (erase t) * sr / inject_Z (rv r))%Q in
+                  let keep := q_is_int (single_run / inject_Z quantum) && Qle_bool (inject_Z min_len) single_run in
+                  bind (to_waveform (Node (if keep then 1 else rv r) w m (map erase ch)))
+                       (fun x => Ok (VNode (if keep then r else Fixed 1) (Some x) m [], wl))
+              else
+                bind ((fix go (l : list vtree) (ls : list (comp_level * bool)) : result (list vtree * bool) :=
+                         match l, ls with
+                         | c :: rest, lw :: lr =>
+                             bind (if comp_level_eqb (fst lw) ActionRequired
+                                   then vmake_compatible_rec_w min_len quantum sr c else Ok (c, false))
+                                  (fun cw => bind (go rest lr) (fun rw => Ok (fst cw :: fst rw, snd cw || snd rw)))
+                         | _, _ => Ok ([], false)
+                         end) ch lws)
+                     (fun cw => Ok (VNode r w m (fst cw), wl || snd cw)))
+  end.
+
+Definition vmake_compatible_w (min_len quantum : Z) (sr : Q) (t : vtree) : result (vtree * bool) :=
+  bind (vis_compatible_w min_len quantum sr t)
+       (fun lw => match fst lw with
+                  | IncompFraction | IncompTooShort | IncompQuantum => Err EValue
+                  | ActionRequired => bind (vmake_compatible_rec_w min_len quantum sr t)
+                                           (fun tw => Ok (fst tw, snd lw || snd tw))
+                  | Compatible => Ok (t, snd lw)
+                  end).
+
+(* roll_constant_waveforms: decides from the waveform only; `program.repetition_definition * additional_repetition_count`
+   (VolatileRepetitionCount.__mul__ keeps the scope and multiplies the expression) *)
+Fixpoint vroll_constant_waveforms (min_quanta quantum : Z) (sr : Q) (t : vtree) : result vtree :=
+  match t with
+  | VNode r (Some x) _ [] =>
+      if quantum =? 0 then Err EZeroDiv
+      else
+        let wqq := (wf_dur x * sr / inject_Z quantum)%Q in
+        if negb (q_is_int wqq) then Ok (VNode r (Some x) [] [])
+        else
+        let wq := q_int wqq in
+        if wq <? min_quanta * 2 then Ok (VNode r (Some x) [] [])
+        else match cvd x with
+             | None => Ok (VNode r (Some x) [] [])
+             | Some v =>
+                 bind (smallest_factor_ge wq min_quanta)
+                      (fun nq => if nq =? wq then Ok (VNode r (Some x) [] [])
+                                 else Ok (VNode (match r with
+                                                 | Fixed n => Fixed (n * (wq / nq))
+                                                 | Volatile n tg => Volatile (n * (wq / nq)) (VScale tg (wq / nq))
+                                                 end)
+                                                (Some (WConst (Qred (inject_Z quantum * inject_Z nq / sr)) v)) [] []))
+             end
+  | VNode r w _ ch =>
+      bind ((fix go (l : list vtree) : result (list vtree) :=
+               match l with
+               | [] => Ok []
+               | c :: rest => bind (vroll_constant_waveforms min_quanta quantum sr c)
+                                   (fun c' => bind (go rest) (fun rs => Ok (c' :: rs)))
+               end) ch)
+           (fun ch' => Ok (VNode r w [] ch'))
+  end.
+
+(* number of nodes whose count is volatile *)
+Fixpoint vol_count (t : vtree) : nat :=
+  match t with VNode r _ _ ch => ((if is_vol r then 1 else 0) + list_sum (map vol_count ch))%nat end.
+
+(* executable guard of [Proofs_vol_mc.vmake_compatible_faithful]: make_compatible lost a volatile count *)
+Definition vmc_loses_count (min_len quantum : Z) (sr : Q) (t : vtree) : bool :=
+  match vmake_compatible_w min_len quantum sr t with
+  | Ok (t', _) => negb (vol_count t' =? vol_count t)%nat
+  | Err _ => false
+  end.
